@@ -3,6 +3,7 @@ import HeraProofs.Props.C10
 import HeraProofs.Props.C16
 import HeraProofs.Props.C09
 import HeraProofs.Props.C07b
+import HeraProofs.Props.C07c
 open Hera
 #print axioms C07_lexer_terminates
 #print axioms C07_token_progress
@@ -14,3 +15,9 @@ open Hera
 #print axioms C10_read_range
 #print axioms C16_ifdef
 #print axioms C09_op_iff
+#print axioms Parse.argStep_ok
+#print axioms Parse.argLoop_ok
+#print axioms Parse.progStep_ok
+#print axioms Parse.progLoop_ok
+#print axioms Parse.C07_parser_never_stuck
+#print axioms Parse.C07_parser_total
